@@ -223,7 +223,7 @@ func (k *c17) summarize(fn *ssa.Function, recvIdx int) *writeSummary {
 }
 
 func checkC17(c *Ctx, r *Report) {
-	r.Explain = "Reuse of decoded values and connections as an effects analysis: (1) definite full assignment — for every layer decoder, each receiver field (promoted and nested fields expanded to leaves, callee effects composed by summaries) that is written on some success path must be written on every success path, and a copy into a fixed-size array field counts only when engine E1 proves the source at least as long as the array on every path; (2) typestate (shared with C10): every connection layer is re-initialised since the last decode before it is serialised; (3) SendCommand returns the completion code read after the exchange of the same call. Decides which fields can keep an earlier value, on all paths; not aliasing of returned slices with the receive buffer."
+	r.Explain = "Reuse of decoded values and connections as an effects analysis: (1) definite full assignment — for every layer decoder, each receiver field (promoted and nested fields expanded to leaves, callee effects composed by summaries) that is written on some success path must be written on every success path, and a copy into a fixed-size array field counts only when engine E1 proves the source at least as long as the array on every path; (2) typestate (shared with C10): every connection layer is re-initialised since the last decode before it is serialised; (3) SendCommand returns the completion code read after the exchange of the same call and, when the command has a response layer, has decoded into it on every error-free return; (4) every serialiser stores every byte of the regions it prepends/appends on every path and reads none of them first (the serialise buffer is reused, not cleared). Decides which fields can keep an earlier value, on all paths; not aliasing of returned slices with the receive buffer."
 	r.NotDecided = []string{"aliasing of decoded slices (payloads, signatures, chunks) with the transport's receive buffer after the next command", "fields the decoder never writes at all (configuration such as IntegrityAlgorithm) are outside the rule by construction"}
 	r.Trusted = []string{"go/types, go/ssa (x/tools v0.29.0)", "engine E1 for the totality of array copies"}
 
